@@ -181,11 +181,13 @@ hist_prop("C02",
 
 hist_prop("C04",
     ["c04_once_per_cycle", "c04_dupe_gets_pubrec", "c04_dupe_gets_pubrec_big", "c04_pubrel_gets_pubcomp", "c04_marker_before_pubrec"],
-    ["across restarts: the marker lives in the Persistence, so the once-per-cycle theorem applies to an adopted client on the same store; the documented BUG window (marker Save fails, then process stop) is excluded as the property says"],
+    ["closed loop (InboundWorld.v): the client's step shapes are read off Session.v and justified by the cited handler theorems (c04_tie_*), not proved as a refinement; the broker is the MQTT 3.1.1 figure 4.3 sender deciding on the identifier only, its session survives, one FIFO connection at a time",
+     "the window in which a second delivery is possible is wider than the BUG comment in client.go says: a plain process stop between the ReadSlices call that returned the message and the next one (which saves the marker and writes PUBREC) re-delivers after AdoptSession, without any Save error (window_second_delivery); at most one extra delivery per such stop (c04_once_per_cycle with the ghost i_lost) - this is what C07's ownership rule implies and the property excludes it",
+     "recorded finding F25: when the BROKER starts a new session (CONNACK without session-present) the reception markers stay; the next message that reuses such an identifier is acknowledged and never returned (clean_session_restart_loses_message; reproduced by the scripted history 'F25')"],
     "C04 generator: broker-initiated QoS 2 publishes with retransmissions (same content, DUP), PUBREL after PUBREC, loss of acknowledgements, big messages (buffer 32/64), restarts.",
-    ALLSTATES + "A PUBLISH whose marker is in the Persistence is never returned; a duplicate gets its PUBREC again at once; every PUBREL gets PUBCOMP (or it is kept for the retry); the marker is saved before the PUBREC is written. c04_ok judges the trace: no delivery while the marker exists, every passed PUBLISH/PUBREL answered.",
-    "Trusted: Coq kernel; Session model; harness.",
-    "Coq proof over all states/scripts of the model's reception handlers + model/implementation correspondence")
+    ALLSTATES + "A PUBLISH whose marker is in the Persistence is never returned; a duplicate gets its PUBREC again at once; every PUBREL gets PUBCOMP (or it is kept for the retry); the marker is saved before the PUBREC is written. Closed loop (InboundWorld.v) with a conforming sending broker, under any interleaving of deliveries, flushes, connection breaks, reconnects (broker resends in order) and client restarts: each message is returned at most once per cycle unless the process stops between its delivery and the flush of its PUBREC (then at most once more per stop); a marker exists only while the broker holds that identifier for a message that was returned, so a new message under a reused identifier is never taken for a duplicate (c04_new_cycle_no_marker, what M3-C04b breaks); a fault-free run of bounded length completes every cycle exactly once (c04_good_run_exists). c04_ok judges the trace: no delivery while the marker exists, every passed PUBLISH/PUBREL answered.",
+    "Trusted: Coq kernel; Session model; harness; the definition of the conforming sending broker and of the connection in InboundWorld.v. F25 recorded as known finding.",
+    "Coq proof over all states/scripts of the model's reception handlers + closed-world invariant proof + model/implementation correspondence")
 
 hist_prop("C07",
     ["c07_receive_writes_nothing", "c07_own_ack", "c07_no_ack_while_held", "c07_ack_first_on_next_call", "c07_pending_ack_shape"],
@@ -293,7 +295,7 @@ L3TXT = ("Concurrency: the synchronisation skeleton (connSem, writeSem, the two 
 
 hist_prop("C10",
     ["c10_error_leaves_connection", "c10_big_error_leaves_connection", "c10_redial", "c10_reset_then_redial", "c10_pending_released", "c10_connect_shape", "c10_own_writes_do_not_wait"],
-    ["interleaving statements: proved for the L3 monitor are the acyclic wait-for graph and that the write-token holder waits for no channel (c10_wait_for_acyclic, c10_write_holder_waits_for_nothing); bounded wait on connSem/seqSem through the I/O gates is not a theorem; the real client is tied to the monitor by trace inclusion on sampled schedules",
+    ["interleaving statements (SyncProofs/SyncProgress): a blocked read routine always waits for another goroutine that has an enabled, potential-decreasing event (c10_read_routine_never_self_blocked); from every reachable monitor state the read routine returns within 42 enabled events and all semaphores are handed back within 39 (c10_read_routine_returns, c10_tokens_released), assuming I/O gates return (connections are closed by the waiter first or have deadlines); fairness is not modelled; the real client is tied to the monitor by trace inclusion on sampled and gated schedules",
      "a request blocked in lockWrite spins (no blocking) while the write semaphore is pending and Online is still released, until ReadSlices notices the failure: CPU is burnt but the property's wording holds"],
     "C10 generator: general histories + ReadBackoff measured in virtual time; second runner SYNC (concurrent runs).",
     ALLSTATES + "Every error while reading/handling leaves the connection (close, offline, pending released) and the next ReadSlices redials; a failed attempt releases waiters with ErrDown; the read routine's own writes never wait for a connect. " + L3TXT +
@@ -329,13 +331,17 @@ PROPS["C12"]["runners"] = [{"name": "C12", "synctest": True}, {"name": "SYNC", "
 PROPS["C12"]["theorems"] = ["c12_no_chan_panic", "c12_closed_for_good", "c12_closed_implies", "c12_after_close_connsem", "c12_after_close_writesem",
     "c12_close_does_not_wait_on_itself", "c12_wait_for_acyclic", "c12_write_holder_progress", "c12_write_holder_enabled", "c12_f20_pinned_refuted",
     "c12_disconnect_outcomes", "c12_disconnect_not_submitted", "c12_errs_in_model"]
-PROPS["C12"]["partial"] = ["liveness of Close/Disconnect: proved are the safety half (acyclic wait-for graph, no self-wait) and bounded progress of the write-token holder; progress of the connSem/seqSem holders through the abort hand-shake and the I/O gates is not a theorem ('promptly' is sampled: every call returned within the watchdogs on all recorded schedules)",
+PROPS["C12"]["partial"] = ["progress (SyncProgress.v) is a bounded-schedule statement about the monitor: from every reachable state there is a schedule of at most 45 (Close) / 46 (Disconnect) enabled events after which the call has returned, and in game form every outcome of the designated goroutine's moves keeps the bound (c12_close_must_return); assumptions built into the monitor's events: E1 every I/O gate returns (the waiter closes the connection first at Close/Disconnect-with-quit/toOffline/abort; a deadline alone at Disconnect waiting for a writer, at connect's wait for the write semaphore, and with a Dialer that ignores its context), E2 a started goroutine eventually runs, E3 only the designated goroutine moves (Go's receive queues and fairness under unlimited new callers are not modelled)",
+    "channels outside the monitor are not covered by any statement: the Online/Offline signal holders, the ping slot, the exchange channels, the WaitGroup of termCallbacks (its goroutines are shown to end)",
     "the L3 theorems are about faithful accepted traces of the monitor; faithfulness (one ReadSlices goroutine, monotone context, done closed once) is checked on every recorded trace",
     "recorded finding F23: after Close, ReadSlices first returns a left-over error (closed connection with a BigMessage pending, or the marker Save error) before ErrClosed",
     "signals (Online/Offline never both released) are observed (Online only), not in the monitor"]
 PROPS["C12"]["level_text"] = PROPS["C12"]["level_text"].replace("Concurrency:", "Proved for every faithful accepted event sequence of the L3 monitor, any number of goroutines, any schedule: no channel panic, token conservation, closed for good, acyclic wait-for graph, Close never waits on itself, bounded progress of the write-token holder. Concurrency tie:")
 PROPS["C08"]["theorems"].append("c08_write_token_exclusive")
-PROPS["C08"]["partial"] = ["connection-log invariant of the session model (every reachable connection log = whole packets + one tail) is checked on traces (c08_ok), not yet a theorem"]
+PROPS["C08"]["partial"] = ["the whole-packets invariant (WholePackets.v: c08_run_conn_log_inv, c08_conn_whole_model) holds for map-mode Persistence holding only records the client saved (store_ok: established by init_sys, kept by every step), a valid Config (cfg_wf = what Config.valid guarantees) and API levels in range (op_ok); resend writes whatever the Persistence returns, so a forged record or a hostile scripted store puts non-packets on the wire (forged_record_is_resent, hostile_store_is_resent: vm_compute counterexamples kept in the file) — C16's subject",
+    "dead connections are frozen at the level of accepted bytes and tape-consuming Write calls, not syntactically 'no empty Write'",
+    "'success means written completely' for each request is the L1 theorem composed with the call-site lemmas; the per-request statement on traces is success_complete in c08_ok"]
+PROPS["C08"]["level_text"] = PROPS["C08"]["level_text"].replace("the loops run inside the session model,", "WholePackets.v lifts this to the session model: every conn_write call site offers exactly one packet of the independent parser's language (or nothing), a failed write gives the connection up for good, and in every reachable state of every history (adoptions included) every connection's accepted bytes are whole packets followed by at most a prefix of one more, whole on the connection that holds the write token (c08_run_conn_log_inv; c08_conn_whole_model bridges to the boolean checker conn_whole); the loops run inside the session model,")
 PROPS["C08"]["runners"] = [{"name": "C08", "synctest": True}, {"name": "SYNC08", "synctest": True}]
 PROPS["C08"]["modules"] = ["C08Check", "SyncCheck"]
 PROPS["C05"]["theorems"].append("c05_seq_exclusive")
